@@ -158,8 +158,9 @@ static void multi_run(int run, int kind, vt::rng& g)
             binning const& b = ds[(std::size_t) fs.dist];
             if (b.by) pr.add((std::size_t) fs.dist, (T) fs.x.v, (T) fs.y.v, v); else pr.add((std::size_t) fs.dist, (T) fs.x.v, v);
             // value * weight on scale 4
+            bool fin = !fs.vnan && std::isfinite(T(fs.v) * weight);
             vt::ev("Fill").i("dist", fs.dist).s("xt", fs.x.tag).i("x", fs.x.k).s("yt", fs.y.tag).i("y", fs.y.k)
-                .i("vfin", fs.vnan ? 0 : 1).i("v", fs.vnan ? 0 : vt::exact_scaled(T(fs.v) * weight, 2)).emit();
+                .i("vfin", fin ? 1 : 0).i("v", fin ? vt::exact_scaled(T(fs.v) * weight, 2) : 0).emit();
         }
         ++call;
         return T(1);
@@ -186,8 +187,10 @@ static void multi_run(int run, int kind, vt::rng& g)
     }
     else
     {
-        auto map = [](std::size_t, std::vector<T> const& r, std::vector<T>& c, std::vector<std::size_t> const&, std::vector<T>& d,
-            hep::multi_channel_map) { c[0] = r[0]; d[0] = T(2); d[1] = T(2); return T(1); };
+        // every fifth call lies in a region where all channel densities vanish: the weight is infinite, value x weight is not finite
+        // and must reach neither the integral nor any bin
+        auto map = [&call](std::size_t, std::vector<T> const& r, std::vector<T>& c, std::vector<std::size_t> const&, std::vector<T>& d,
+            hep::multi_channel_map) { c[0] = r[0]; T p = (call % 5 == 4) ? T() : T(2); d[0] = p; d[1] = p; return T(1); };
         auto fn = [&](hep::multi_channel_point<T> const& p, hep::projector<T>& pr) { return body(p.weight(), pr); };
         auto integrand = hep::make_multi_channel_integrand<T>(fn, 1, map, 1, 2, make_params<T>(ds[0], 0, "a"), make_params<T>(ds[1], 0, ""),
             make_params<T>(ds[2], 0, "c c"));
